@@ -252,6 +252,26 @@ theorem restart_ok {cfg : Cfg} (fs : FS Name) (g : GoodFS cfg fs) : OpOK cfg fs 
   ⟨neutral_prefix g _ (restartPlan_neutral cfg fs),
    ⟨(fun e h => by cases h), (fun t h => by cases h)⟩⟩
 
+/-- `DeleteTorrent` / a clean-up of either directory / a cache eviction -/
+theorem evict_ok {cfg : Cfg} (o : Order Name) (m : Mem) (fs : FS Name) (g : GoodFS cfg fs) : OpOK cfg fs (evict cfg o m fs) := by
+  have hm0 : (evict cfg o m fs).mem = {} := by
+    unfold evict; simp only; split <;> rfl
+  refine ⟨?_, by rw [hm0]; exact ⟨(fun e h => by cases h), (fun t h => by cases h)⟩⟩
+  unfold evict
+  cases hme : m.entry with
+  | some e =>
+    simp only [loadEntry, hme, List.nil_append]
+    exact removal_prefix _ (removeAllPlan_removal fs o _) g
+  | none =>
+    simp only [loadEntry, hme]
+    cases hfind : [false, true].find? (fun c => (fs.file? (entryDir cfg c) Name.data).isSome) with
+    | none => simp only; intro k; simpa [applyPrefix] using g
+    | some c =>
+      simp only
+      have hlN := latPlan_neutral cfg fs c
+      exact prefix_append _ _ _ _ (neutral_prefix g _ hlN)
+        (removal_prefix _ (removeAllPlan_removal _ o _) (goodFS_all (neutral_prefix g _ hlN)))
+
 theorem exec_ok {cfg : Cfg} (hpl : 0 < cfg.pl) (hlat : cfg.lat ≠ []) {σ : Type} [DecidableEq σ] (sum : Bytes → σ) (hsep : SumSep cfg sum)
     (o : Order Name) (mo : List Name) (m : Mem) (fs : FS Name) (g : GoodFS cfg fs) (gm : GoodMem cfg m fs) (op : Op) :
     OpOK cfg fs (exec cfg sum o mo m fs op) := by
@@ -259,5 +279,6 @@ theorem exec_ok {cfg : Cfg} (hpl : 0 < cfg.pl) (hlat : cfg.lat ≠ []) {σ : Typ
   | create => exact (create_ok hpl hlat o mo m fs g gm).toOpOK
   | write i p => exact (write_ok hpl sum hsep o mo m fs i p g gm).1
   | restart => exact restart_ok fs g
+  | evict => exact evict_ok o m fs g
 
 end KrakenModel.AgentCrash
